@@ -850,15 +850,31 @@ impl AppState {
             }
         };
         if let Err(err) = self.persist_api_keys().await {
-            let mut keys = self
-                .inner
-                .api_keys
-                .write()
-                .unwrap_or_else(std::sync::PoisonError::into_inner);
-            match previous {
-                Some(previous) => keys.insert(name.to_string(), previous),
-                None => keys.remove(name),
+            let restored = {
+                let mut keys = self
+                    .inner
+                    .api_keys
+                    .write()
+                    .unwrap_or_else(std::sync::PoisonError::into_inner);
+                match previous {
+                    Some(previous) => keys.insert(name.to_string(), previous),
+                    None => keys.remove(name),
+                };
+                keys.clone()
             };
+            // The engine keeps the rejected map in memory (`save_extension`
+            // inserts before it flushes) and the registry shares the same
+            // metadata object: put the restored map back, so that a later
+            // unrelated metadata write cannot make the rejected binding
+            // durable.
+            let primary = {
+                let dbs = self.inner.databases.read().await;
+                dbs.get(&self.inner.options.primary_db)
+                    .map(|entry| entry.db.clone())
+            };
+            if let Some(db) = primary {
+                db.set_extension_from(DB_API_KEYS_KEY.to_string(), &restored);
+            }
             return Err(err);
         }
         Ok(())
